@@ -1326,8 +1326,11 @@ func (t *TBtree) flushTree(cleanupPercentageHint float32, forceSync bool, forceC
 		// prevent discarding data referenced by opened snapshots
 		discardableNLogOffset := actualNewMinOffset
 		for _, snap := range t.snapshots {
-			if snap.root.minOffset() < discardableNLogOffset {
-				discardableNLogOffset = snap.root.minOffset()
+			// snap.minOff was fixed when the snapshot was taken: the root may be shared with
+			// the tree and rewritten in place by this very flush, readers opened on the
+			// snapshot still point to the previous locations
+			if snap.minOff < discardableNLogOffset {
+				discardableNLogOffset = snap.minOff
 			}
 		}
 
@@ -2018,6 +2021,7 @@ func (t *TBtree) newSnapshot(snapshotID uint64, root node) *Snapshot {
 		id:      snapshotID,
 		ts:      root.ts() + 1,
 		root:    root,
+		minOff:  root.minOffset(),
 		readers: make(map[int]io.Closer),
 		_buf:    make([]byte, t.maxNodeSize),
 	}
